@@ -120,9 +120,9 @@ func (c *Ctx) NonNilValue(v ssa.Value, at ssa.Instruction, depth int) bool {
 
 // library / repo constructors whose result is never nil
 var nonNilCtors = map[string]bool{
-	"github.com/ryszard/goskiplist/skiplist.NewCustomMap":      true,
-	"github.com/ryszard/goskiplist/skiplist.NewStringMap":      true,
-	"github.com/ryszard/goskiplist/skiplist.NewIntMap":         true,
+	"github.com/ryszard/goskiplist/skiplist.NewCustomMap":           true,
+	"github.com/ryszard/goskiplist/skiplist.NewStringMap":           true,
+	"github.com/ryszard/goskiplist/skiplist.NewIntMap":              true,
 	"(*github.com/ryszard/goskiplist/skiplist.SkipList).Iterator":   true,
 	"(*github.com/ryszard/goskiplist/skiplist.SkipList).SeekToLast": false,
 	"crypto/md5.New": true,
